@@ -29,6 +29,13 @@ def oracle(text, origin):
                                      what='mesh case %s: %s is %s before encoding and %s after decoding' % (
                                          idx, k, codecrun.clip(str(a.get(k)), 80), codecrun.clip(str(b.get(k)), 80))))
                 break
+    # a download cut off at the transfer limit must not make the decoder panic (C08); the differential
+    # against the model compares what it returns instead
+    import re as _re
+    cuts = {m.group(1): (0 if m.group(2) == '-' else len(m.group(2)) // 2) for m in _re.finditer(r'^MESHBAD (\S+) (\S+)$', text, _re.M)}
+    for m in _re.finditer(r'^MESHBADDEC (\S+) PANIC$', text, _re.M):
+        failures.append(dict(signature='mesh-truncated-download-panics', origin=dict(origin, case=m.group(1)),
+                             what='mesh case %s: bin_to_mesh PANICS on a download cut off after %d bytes' % (m.group(1), cuts.get(m.group(1), -1))))
     return failures, n, nontrivial
 
 
